@@ -225,6 +225,15 @@ def _key(key, name):
 
 
 def replay(ctx, case):
+    if "h" not in case and "model_bytes" not in case:
+        # extra cases are stored by name: rebuild the model bytes
+        from .. import core
+
+        core.bind_repo(need_codec=False)
+        for c in extra_cases("quick", 0):
+            if c["name"] == case.get("name") and c["cfg"] == case.get("cfg"):
+                case = dict(case, model_bytes=c["model_bytes"])
+                break
     return netrun.replay_case(oracle, case)
 
 
@@ -242,6 +251,10 @@ def extra_cases(tier, seed):
         except Exception:
             continue
         out.append(dict(model_bytes=mb, cfg=dict(acc="ethos-u55-128"), name="corner:%s/%d" % (sp["op"], sp["arity"]), level="corner"))
+    # interface entries that the surviving operators do not need (judged like every other network: the entry lists are the source's)
+    for kind in ("unused_input_first", "unused_input_last", "dead_op_input", "const_input", "output_is_input", "const_output", "unused_tensor"):
+        for acc in ("ethos-u55-128", "ethos-u65-256"):
+            out.append(dict(model_bytes=build.serialise(corner._structural(kind)), cfg=dict(acc=acc), name="iface:%s" % kind, level="iface"))
     return out
 
 
